@@ -59,7 +59,9 @@ def check(cx):
         ws = [c for c in f.calls() if c.callee in muts]
         if not ws:
             continue
-        good = all(w.term["to"] is not None and p.followed_interproc(f, w.term["to"], {msi}) for w in ws)
+        # a helper shared by the table write and by the maintenance itself (insert-or-revive) is followed by the maintenance
+        # at every call site outside the maintenance
+        good = all(w.term["to"] is not None and p.followed_interproc(f, w.term["to"], {msi}, within={msi}) for w in ws)
         name = f.id.rsplit("::", 1)[-1]
         cx.verdict(good, r1, name, f.where(), "%d table write(s), each followed by index maintenance (here or in every caller)" % len(ws),
                    "a success path leaves %s after writing the table without maintaining the indexes" % f.id)
